@@ -6,6 +6,7 @@ import itertools
 from .. import core, qeval, qgen
 
 LEVEL = "proof"
+READY = True
 CLAIM = {
     "text": "Lean theorems over ALL expression trees (any depth): the model of the compile-time checks (arity and per-parameter checks of check_well_typedness, the "
             "non-comparable-operand check, the must-be-compared checks now applied at every logical position, index/slice range checks) accepts a standard expression exactly "
